@@ -222,8 +222,10 @@ func (p *Planner) expandSelectTopNodePlan(plan *selectTopNode, parentPlan *selec
 
 	p.expandAggregatePlans(plan)
 
-	// if we have an index that can take over ordering, we ignore the order node
-	if plan.order != nil && !isOrderedByIndex(plan.selectNode.source) {
+	// if we have an index that can take over ordering, we ignore the order node. This holds for the
+	// top level plan only: the scan of a joined plan is re-targeted for every parent document and
+	// does not follow the order of the index.
+	if plan.order != nil && (parentPlan != nil || !isOrderedByIndex(plan.selectNode.source)) {
 		plan.order.plan = plan.planNode
 		plan.planNode = plan.order
 	}
